@@ -356,7 +356,8 @@ where
     }
     let config = TestWorldConfig::default().with_seed(seed).with_timeout_secs(60);
     let world = TestWorld::<NotSharded>::with_config(&config);
-    let single = api == "single";
+    let single = api.starts_with("single");
+    let two_gates = api.ends_with('2');
     let futs = world
         .malicious_contexts()
         .into_iter()
@@ -370,11 +371,19 @@ where
             let work = stream::iter(zip(x, y)).enumerate().map(|(i, (a, b))| {
                 let m_ctx = m_ctx.clone();
                 async move {
-                    match dev {
+                    // two-gate mode: two independent multiplications per record under two different steps,
+                    // so that one proof batch holds intermediates of several gates
+                    let ctx_a = if two_gates { m_ctx.narrow("a") } else { m_ctx.clone() };
+                    let first = match dev {
                         Some(d) if d.helper == h && d.record == i => {
-                            deviating_multiply::<N>(m_ctx, RecordId::from(i), &a, &b, d).await
+                            deviating_multiply::<N>(ctx_a, RecordId::from(i), &a, &b, d).await
                         }
-                        _ => a.multiply(&b, m_ctx, RecordId::from(i)).await,
+                        _ => a.multiply(&b, ctx_a, RecordId::from(i)).await,
+                    }?;
+                    if two_gates {
+                        b.multiply(&a, m_ctx.narrow("b"), RecordId::from(i)).await
+                    } else {
+                        Ok(first)
                     }
                 }
             });
@@ -471,6 +480,23 @@ fn verif_c03_validate() {
                     let count = 2 + rng.usize_below(200);
                     let mpg = 1usize << rng.usize_below(count.min(128).ilog2() as usize + 1);
                     out.push(format!("c03.validate record {ty} {count} {mpg} {} -", rng.below(1 << 30)));
+                }
+            }
+            // several gates (steps) in one proof batch
+            for (api, ty, count, mpg) in [
+                ("single2", "b1", 3, 3), ("single2", "ba8", 33, 33), ("single2", "ba256", 2, 2), ("single2", "ba20", 9, 9),
+                ("record2", "ba3", 12, 4), ("record2", "ba64", 6, 2), ("record2", "b1", 130, 64),
+            ] {
+                out.push(format!("c03.validate {api} {ty} {count} {mpg} {} -", rng.below(1 << 30)));
+            }
+            for h in 0..3 {
+                for (k, f) in FIELD_NAMES.iter().enumerate() {
+                    if (k + h) % 2 == 0 || thorough {
+                        let (ty, count) = [("ba8", 5usize), ("b1", 40), ("ba32", 9)][(k + h) % 3];
+                        let rec = rng.usize_below(count);
+                        let bit = rng.usize_below(width(ty));
+                        out.push(format!("c03.validate single2 {ty} {count} {count} {} {h}:{f}:{rec}:{bit}", rng.below(1 << 30)));
+                    }
                 }
             }
             // one helper deviates in exactly one bit: every (helper, field) pair, single-shot validation
